@@ -88,6 +88,7 @@ Inductive sval :=
 | SStr (s : bytes)
 | SInt (z : Z)
 | SFlt (bits : N)          (* float64 bit pattern of a non-integral number *)
+| SDec (m : Z) (e : Z)     (* a JSON number spelled with a fraction or an exponent: m * 10^e *)
 | SBool (b : bool).
 
 Definition sval_eqb (a b : sval) : bool :=
@@ -95,6 +96,7 @@ Definition sval_eqb (a b : sval) : bool :=
   | SStr x, SStr y => bytes_eqb x y
   | SInt x, SInt y => (x =? y)%Z
   | SFlt x, SFlt y => x =? y
+  | SDec m e, SDec m' e' => (m =? m')%Z && (e =? e')%Z
   | SBool x, SBool y => Bool.eqb x y
   | _, _ => false
   end.
@@ -119,6 +121,35 @@ Definition map_set_all (kvs : event) (m : event) : event :=
 
 Definition add_prefix (p : bytes) (e : event) : event := map (fun kv => (p ++ fst kv, snd kv)) e.
 
+(* jp.ParseFloat + uint64(): the decimal p/q (p/q < 2^64) rounded to the nearest float64
+   (53-bit significand, ties to even), then truncated *)
+Definition f64_ratio_trunc (p q : N) : N :=
+  if p =? 0 then 0 else
+  let s0 := (Z.of_N (N.size p) - Z.of_N (N.size q) - 53)%Z in
+  let scaled (s : Z) : N * N :=
+    if (0 <=? s)%Z then (p, q * 2 ^ Z.to_N s) else (p * 2 ^ Z.to_N (- s), q) in
+  let s := if fst (scaled s0) / snd (scaled s0) <? 9007199254740992 then s0 else (s0 + 1)%Z in
+  let n := fst (scaled s) in
+  let d := snd (scaled s) in
+  let m0 := n / d in
+  let r := n mod d in
+  let m := if (d <? 2 * r) || ((2 * r =? d) && N.odd m0) then m0 + 1 else m0 in
+  if (0 <=? s)%Z then m * 2 ^ Z.to_N s else m / 2 ^ Z.to_N (- s).
+(* the positive JSON number m * 10^e read through the float fall-back *)
+Definition dec_u64 (m e : Z) : N :=
+  if (0 <=? e)%Z then f64_ratio_trunc (Z.to_N m * 10 ^ Z.to_N e) 1
+  else f64_ratio_trunc (Z.to_N m) (10 ^ Z.to_N (- e)).
+(* ExtractTimeStamp, jp.Number branch, after either reader: the unit step on a uint64 *)
+Definition flt_ts_ms (t : N) : N := if is_time_in_milli t then t else wrap64 (t * 1000).
+Definition in_int64 (z : Z) : bool := ((-9223372036854775808 <=? z) && (z <? 9223372036854775808))%Z.
+(* an integer literal: jp.ParseInt when it fits int64, else the float fall-back *)
+Definition int_lit_ts (z : Z) : N := if in_int64 z then num_ts_ms z else flt_ts_ms (dec_u64 z 0).
+(* the instant a positive decimal m * 10^e denotes, exactly: seconds with their fraction, or milliseconds *)
+Definition dec_floor (m e : Z) : N :=
+  if (0 <=? e)%Z then Z.to_N m * 10 ^ Z.to_N e else Z.to_N m / 10 ^ Z.to_N (- e).
+Definition dec_true_ms (m e : Z) : N :=
+  if is_time_in_milli (dec_floor m e) then dec_floor m e else dec_floor m (e + 3).
+
 (* external, un-modelled readers of a timestamp value *)
 Record ts_ext := {
   time_fmt : bytes -> option N;     (* time.Parse over the five layouts, result in ms *)
@@ -139,7 +170,8 @@ Definition extract_ts (x : ts_ext) (e : event) (key : bytes) (clock : N) : N :=
       | Some v => str_ts_ms v
       | None => match time_fmt x s with Some t => t | None => clock end
       end
-  | Some (SInt z) => num_ts_ms z
+  | Some (SInt z) => int_lit_ts z
+  | Some (SDec m e) => flt_ts_ms (dec_u64 m e)
   | Some (SFlt b) => let t := flt_u64 x b in if is_time_in_milli t then t else wrap64 (t * 1000)
   | Some (SBool _) => 0
   end.
@@ -167,9 +199,12 @@ Definition stored_fields (e : event) : event := filter visible e.
 
 (* ---------- 3. protocol builders (logs) ---------- *)
 (* wire form of a time value *)
-Inductive twire := WNone | WNum (z : Z) | WStr (s : bytes).
+Inductive twire := WNone | WNum (z : Z) | WStr (s : bytes) | WDec (m e : Z).
 Definition ts_field (t : twire) : event :=
-  match t with WNone => [] | WNum z => [(k_timestamp, SInt z)] | WStr s => [(k_timestamp, SStr s)] end.
+  match t with
+  | WNone => [] | WNum z => [(k_timestamp, SInt z)] | WStr s => [(k_timestamp, SStr s)]
+  | WDec m e => [(k_timestamp, SDec m e)]
+  end.
 
 (* 3.1 Elasticsearch bulk / doc: the document is stored as sent *)
 Definition es_build (t : twire) (attrs : event) : event := ts_field t ++ attrs.
@@ -291,6 +326,7 @@ Definition fmt_v (v : sval) : bytes :=
   | SBool true => s2b "true"
   | SBool false => s2b "false"
   | SFlt _ => []                 (* outside the modelled fragment *)
+  | SDec _ _ => []
   end.
 Definition id_or_attr (id : bytes) (name : bytes) (attrs : event) : bytes :=
   match id with
@@ -456,6 +492,7 @@ Definition otlp_attr_str (v : sval) : option bytes :=
   | SBool false => Some (s2b "false")
   | SInt z => Some (Z_dec z)
   | SFlt _ => None               (* strconv.FormatFloat: outside the modelled fragment *)
+  | SDec _ _ => None
   end.
 Definition otlp_metric_tags (attrs : event) : list tag :=
   fold_left (fun m kv => match otlp_attr_str (snd kv) with
